@@ -56,3 +56,8 @@ pub fn good_point_ops(m: &mut HashMap<i64, String>, k: i64) -> (bool, usize, Opt
     m.insert(k + 1, String::new());
     (m.contains_key(&k), m.len(), m.remove(&k))
 }
+
+// an ordered container sorts by its unique key
+pub fn good_btree_collect(m: HashMap<i64, String>) -> Vec<(i64, String)> {
+    m.into_iter().collect::<std::collections::BTreeMap<_, _>>().into_iter().collect()
+}
